@@ -2,6 +2,7 @@ import Shm.Proto
 import Shm.Store.DiskView
 import Shm.CryptoMon
 import Shm.Model.Multi
+import Shm.Pure.Drv
 open Shm
 
 /-- model-side context of a call, printed with every mismatch so that the per-property judges can tell what the
@@ -42,7 +43,7 @@ structure Drv where
   st : State := {}
   saved : List (String × State) := []
   disk : Shm.Store.DiskCfg := {}
-  mon : Shm.CryptoMon.Mon := []
+  mon : Shm.CryptoMon.Mon := {}
   lineNo : Nat := 0
   pairs : Nat := 0
   mism : Nat := 0
@@ -101,12 +102,13 @@ partial def loop (h : IO.FS.Stream) (d : Drv) (pendingOp : Option (List String))
       match op, res with
       | ["nop"], _ => loop h d none
       | ["nop", "mutated"], _ => loop h { d with mutated := true } none
+      | "nop" :: _ :: _, _ => loop h d none          -- annotations for the python judges (e.g. `nop samevalues`)
       | ["proc", i], _ =>
         (match parseNat? i with
          | some k =>
            let m : MState := { procs := d.procs, cur := d.cur, st := d.st }
            let m' := m.switch k
-           loop h { d with procs := m'.procs, cur := m'.cur, st := m'.st, mon := [] } none
+           loop h { d with procs := m'.procs, cur := m'.cur, st := m'.st, mon := {} } none
          | none => do
            IO.println s!"UNPARSED line {d.lineNo}: proc"
            loop h { d with unparsed := d.unparsed + 1 } none)
@@ -180,7 +182,34 @@ partial def loop (h : IO.FS.Stream) (d : Drv) (pendingOp : Option (List String))
   | "#trace" :: _ => IO.println line.trimAscii.toString; loop h { d with st := {}, saved := [] } none
   | op => loop h d (some op)
 
-def main : IO UInt32 := do
+/-- unit-level correspondence of the pure helpers: the transcript of harness/purefn (input line, `= answer` line) is re-evaluated with the model definitions -/
+partial def pureLoop (h : IO.FS.Stream) (pending : Option (List String)) (n bad : Nat) : IO (Nat × Nat) := do
+  let line ← h.getLine
+  if line.isEmpty then return (n, bad)
+  match words line with
+  | [] => pureLoop h pending n bad
+  | "=" :: res =>
+    match pending with
+    | none => pureLoop h none n bad
+    | some op =>
+      let want := Shm.Pure.pureLine op
+      let got := " ".intercalate res
+      if want == got then do
+        -- coverage class of the answer: how many settings a configuration file produced; refused / empty / non-empty otherwise
+        let cls := if op.headD "" == "conf" then s!"set{(res.filter (fun w => !w.endsWith "=-")).length - 1}"
+                   else if res == ["."] || res == ["0"] || res == [".", "."] then "empty-or-refused" else "value"
+        IO.println s!"ok {op.headD "?"}:{cls}"
+        pureLoop h none (n + 1) bad
+      else do
+        IO.println s!"MISMATCH fn={op.headD "?"} :: {" ".intercalate op} :: library {got} :: model {want}"
+        pureLoop h none (n + 1) (bad + 1)
+  | op => pureLoop h (some op) n bad
+
+def main (args : List String) : IO UInt32 := do
+  if args == ["--pure"] then
+    let (n, bad) ← pureLoop (← IO.getStdin) none 0 0
+    IO.println s!"SUMMARY pairs={n} mismatches={bad} unparsed=0"
+    return (if bad == 0 then 0 else 1)
   let d ← loop (← IO.getStdin) {} none
   IO.println s!"SUMMARY pairs={d.pairs} mismatches={d.mism} unparsed={d.unparsed}"
   return (if d.mism == 0 && d.unparsed == 0 then 0 else 1)
